@@ -30,7 +30,8 @@ def run(repo, filt='', seed=0, timeout=1500):
             env['VX_C14_D13'] = '1'   # replay the recorded non-terminating judgement sets (4 x 5 s)
         cmd = ['cargo', 'test', '--offline', '--test', 'vx_witness', '--', '--nocapture', '--test-threads', '8']
         if filt:
-            cmd.insert(cmd.index('--') + 1, filt)
+            for k, fl in enumerate(filt.split()):
+                cmd.insert(cmd.index('--') + 1 + k, fl)
         p = subprocess.run(cmd, cwd=dst, env=env, capture_output=True, text=True, timeout=timeout)
         out = p.stdout + '\n' + p.stderr
         excluded = []
@@ -79,8 +80,13 @@ def run(repo, filt='', seed=0, timeout=1500):
         shutil.rmtree(scratch, ignore_errors=True)
 
 
+# drivers of other properties that also decide sentences of this one (they emit witnesses under both ids)
+RELATED = {'C08': ['c10_push', 'c10_dis'], 'C05': ['c08_'], 'C03': ['c14_named', 'c14_random'], 'C01': ['c10_dis', 'c19_', 'c06_']}
+
+
 def for_property(pid, repo, seed=0):
-    r = run(repo, pid.lower() + '_', seed)
+    filt = ' '.join([pid.lower() + '_'] + RELATED.get(pid, []))
+    r = run(repo, filt, seed)
     r['witnesses'] = [w for w in r['witnesses'] if w['property'] == pid]
     return r
 
